@@ -38,6 +38,9 @@ def c10(run):
         cases.append(("bic", b if S.r.random() < 0.6 else S.mutate(b)))
     for _ in range(n * 30):
         cases.append((S.r.choice(["iban", "bic"]), S.malformed()[:60]))
+    from streams import near_whitespace
+    for ch in near_whitespace():
+        cases.append(("iban", "DE89" + ch + "370400440532013000"))
     # every whitespace code point at least once, at every kind of place
     for w in spaces:
         cases.append(("iban", w + "DE89" + w + w + "370400440532013000" + w))
@@ -83,7 +86,7 @@ def run_spec(run, name, texts, spec_op, real_accept, call):
     from corr import run_driver
     if not texts:
         return
-    ops = [[spec_op, hx(common.clean(t))] for t in texts]
+    ops = [[spec_op, hx(t)] for t in texts]
     out = run_driver(ops)
     for t, o in zip(texts, out):
         acc = real_accept(t)
@@ -145,6 +148,11 @@ def c01(run):
     for a in UPPER:
         for b in UPPER:
             texts.append(a + b + base[2:])
+    # invisible characters that are not whitespace must not be cleaned away
+    from streams import near_whitespace
+    for ch in near_whitespace():
+        p = r.randrange(len(base) + 1)
+        texts.append(base[:p] + ch + base[p:])
     for cc in (S.countries if run.tier == "thorough" else r.sample(S.countries, 6)):
         i = S.iban(cc)
         for n in range(0, 41):
@@ -170,6 +178,22 @@ def c01(run):
             run.violation("is_valid", [t], b, "ok " + ("T" if a.startswith("ok ") else "F"),
                           "is_valid vs constructor", op=ops[k + 1])
     run_spec(run, "texts", texts, "spec.iban_valid", iban_accept, "IBAN(text)")
+
+
+def check_obj_seq(run, f, a):
+    """Calls on one object must give what the same calls give on fresh objects."""
+    want = []
+    for step in f[2]:
+        if step == "v":
+            want.append(real(["iban.validate", f[1], "F"]))
+        elif step == "V":
+            want.append(real(["iban.validate", f[1], "T"]))
+        else:
+            want.append(real(["iban.is_valid", f[1]]))
+    want = "ok " + ";".join(want)
+    if a != want:
+        run.violation("sequence of calls on one IBAN object: " + f[2], [unhx(f[1])], a, want,
+                      "same calls on fresh objects", kind="history", op=f, expected_line=want)
 
 
 def spec_lines(ops):
@@ -246,6 +270,10 @@ def c04(run):
         for p in range(len(base)):
             for ch in alph:
                 texts.append(base[:p] + ch + base[p + 1:])
+    from streams import near_whitespace
+    for ch in near_whitespace():
+        p = r.randrange(12)
+        texts.append(base11[:p] + ch + base11[p:])
     for n in range(0, 15):
         texts.append(("GENODEM1GLSXXXX")[:n])
         texts.append("".join(r.choice(DIGITS + UPPER) for _ in range(n)))
@@ -266,7 +294,7 @@ def c04(run):
     reals, _ = run.correspond("texts", ops, lambda f, a: len(common.clean(unhx(f[1]))) in (8, 11))
     for strict in "FT":
         from corr import run_driver
-        out = run_driver([["spec.bic_valid", strict, hx(common.clean(t))] for t in texts])
+        out = run_driver([["spec.bic_valid", strict, hx(t)] for t in texts])
         acc = bic_accept(strict)
         for t, o in zip(texts, out):
             a = acc(t)
@@ -320,12 +348,17 @@ def c05(run):
             ops.append(["iban.is_valid", hx(c)])
             if cc in natl:
                 ops.append(["iban.new", hx(t), "F", "T"])
+                if r.random() < 0.3:
+                    ops.append(["iban.obj_seq", hx(c), r.choice(["ivV", "vVi", "iVvV", "Vvi", "iiV"])])
         if cc in natl:
             ops.append(["reg.reset"])
     reals, _ = run.correspond("iban", ops, nontrivial_iban)
     chk = []
     for f, a in zip(ops, reals):
         if f[0].startswith("reg."):
+            continue
+        if f[0] == "iban.obj_seq":
+            check_obj_seq(run, f, a)
             continue
         if a.startswith("crash"):
             run.violation(f[0], [unhx(f[1])] + f[2:], a, "a library exception or a value",
@@ -334,7 +367,7 @@ def c05(run):
             run.violation("is_valid", [unhx(f[1])], a, "ok T/F", "is_valid raised", op=f)
         if f[0] == "iban.new" and f[3] == "F" and a.startswith("err "):
             chk.append((f, a))
-    out = spec_lines([["spec.iban_defect", a[4:], hx(common.clean(unhx(f[1])))] for f, a in chk])
+    out = spec_lines([["spec.iban_defect", a[4:], f[1]] for f, a in chk])
     for (f, a), o in zip(chk, out):
         run.count(1, tag="defect check " + a[4:])
         if o != "ok T":
@@ -364,7 +397,7 @@ def c05(run):
             run.violation("BIC.is_valid", [unhx(f[1])], a, "ok T/F", "is_valid raised", op=f)
         if f[0] == "bic.new" and a.startswith("err "):
             chk.append((f, a))
-    out = spec_lines([["spec.bic_defect", a[4:], f[3], hx(common.clean(unhx(f[1])))] for f, a in chk])
+    out = spec_lines([["spec.bic_defect", a[4:], f[3], f[1]] for f, a in chk])
     for (f, a), o in zip(chk, out):
         run.count(1, tag="bic defect check " + a[4:])
         if o != "ok T":
@@ -467,6 +500,52 @@ def c06(run):
                       ["iban.new", hx(i), "F", "F"]):
                 ops.append(f)
                 meta.append((cc, b, want))
+    # bank entries outside DE that name a method (none on the pinned tree): target each of them
+    for e in S.banks:
+        if "checksum_algo" in e and e["country_code"] != "DE" and e["country_code"] in natref.NATIONAL \
+                and e["bank_code"]:
+            cc = e["country_code"]
+            ops += registry_lines(S.banks_of(cc))
+            meta += [None] * (len(ops) - len(meta))
+            spec = S.table[cc]
+            for _ in range(6):
+                b = list(S.bban(cc).upper())
+                pos, code = 0, e["bank_code"]
+                for comp in spec.get("bic_lookup_components", ["bank_code"]):
+                    s_, e_ = spec["positions"].get(comp, [0, 0])
+                    b[s_:e_] = list(code[pos:pos + e_ - s_].ljust(e_ - s_, "0"))
+                    pos += e_ - s_
+                b = "".join(b)[: spec["bban_length"]]
+                ops.append(["bban.national", hx(cc), hx(b)])
+                meta.append((cc, b, natref.NATIONAL[cc](b)))
+    # the same BBAN text under several countries, in varying order (results must not depend on
+    # what was validated before)
+    groups = {}
+    for cc in S.countries:
+        items = S.spec_items(cc)
+        if all(k == "n" for _, k in items):
+            groups.setdefault(S.table[cc]["bban_length"], []).append(cc)
+    ops.append(["reg.reset"])
+    meta.append(None)
+    for n, ccs in sorted(groups.items()):
+        nat_in = [c for c in ccs if c in natref.NATIONAL]
+        if not nat_in or len(ccs) < 2:
+            continue
+        for _ in range(run.scale(6, 100)):
+            src = r.choice(nat_in)
+            b = natref.make_valid(src, S.bban(src), r) or S.bban(src)
+            order = ccs[:]
+            r.shuffle(order)
+            for cc in order + order[::-1]:
+                ops.append(["bban.national", hx(cc), hx(b)])
+                meta.append((cc, b, natref.NATIONAL[cc](b) if cc in natref.NATIONAL else True) if cc != "DE" else None)
+    # several calls on one object
+    for cc in sorted(natref.NATIONAL):
+        for _ in range(run.scale(3, 60)):
+            b = S.bban(cc).upper()
+            i = cc + iban_check_digits(cc, b) + b
+            ops.append(["iban.obj_seq", hx(i), r.choice(["ivV", "vVi", "iVvV", "Vvi"])])
+            meta.append(None)
     others = [cc for cc in S.countries if cc not in natref.NATIONAL and cc != "DE"]
     ops.append(["reg.reset"])
     meta.append(None)
@@ -478,6 +557,8 @@ def c06(run):
     reals, _ = run.correspond("national", ops)
     spec_ops, spec_meta = [], []
     for f, m, a in zip(ops, meta, reals):
+        if f[0] == "iban.obj_seq":
+            check_obj_seq(run, f, a)
         if m is None:
             continue
         cc, b, want = m
